@@ -5,6 +5,10 @@ import json, sys
 ALL = ["C%02d" % i for i in range(1, 21)]
 
 CHECKS = {
+ "C19": dict(level="model_checking", design="§3 C19, §0.2 I-maprange",
+   technique="stateless model checking with map iteration order as an explorer-owned environment choice (instrumented build: all permutations at every map-range site a writer executes), plus plain-build repetition in-process and across processes, deep purity snapshots, all 120 writer orders, two injectable clocks",
+   text="For every cue list in scope (all multisets of <=4 styles over 6 heterogeneous profiles x region multisets) and every writer, every permutation at every map walk of package astisub is executed and the bytes compared with the sorted-order bytes; the input list is snapshotted deeply (aliasing, len/cap, spare capacity) before/after each write; all writer orders; STL dates vs two clocks.",
+   note="Trusted: Go toolchain/stdlib; the instrumenter (meaning preservation validated by /repo's tests passing against the overlay); map walks inside dependencies not controlled. 5-6-entry maps: rotations and adjacent transpositions only."),
  "C18": dict(level="fault_enumeration", design="§3 C18",
    technique="exhaustive fault-point enumeration: every byte offset of every corpus document as the point where the stream (reads) or the destination (writes) fails, two fault shapes, several delivery granularities, on the real readers/writers; plus over-long lines and file-helper error paths",
    text="Every offset k in 0..len of every corpus document is a fault point for the real reader (TTML up to the end of the root element); every offset of every writer's output is a fault point for the real writer; a reader/writer that reached the fault must return a non-nil error. Over-long lines (65535..2^20) must give an error or a complete result. Fault-free writes must hand the complete document to the destination.",
